@@ -28,6 +28,7 @@ JudgeAll(os, k, tr) ==
    IF k > Len(os) THEN <<>>
    ELSE LET igs == SeqSet(os[k].ign) IN
         Tag(JudgeObs(a, b, igs, os[k].ab, tr), k, "ab") \o Tag(JudgeObs(b, a, igs, os[k].ba, tr), k, "ba")
+        \o (IF igs = {} /\ ~os[k].ab.pan /\ ~os[k].ba.pan THEN Tag(JudgeSymmetric(a, b, tr, os[k].ab.d, os[k].ba.d), k, "sym") ELSE <<>>)
         \o JudgeAll(os, k + 1, tr)
 
 JudgeRefl(r) == IF r.pan THEN <<[kind |-> "panic", loc |-> <<"reflexive">>]>>
@@ -43,7 +44,10 @@ CheckDiff ==
                  ELSE Tag(JudgeMatch(a, b, L.mab), 0, "ab") \o Tag(JudgeMatch(b, a, L.mba), 0, "ba"))
                 \o JudgeAll(L.o, 1, tr)
                 \* Reflexive: every logged tree against an equal, separately built tree (no ignores)
-                \o Tag(JudgeRefl(L.ra), 0, "aa") \o Tag(JudgeRefl(L.rb), 0, "bb") IN
+                \o Tag(JudgeRefl(L.ra), 0, "aa") \o Tag(JudgeRefl(L.rb), 0, "bb")
+                \* one reading of the numeric kinds for the simple and the gen representation (Diff.tla A1')
+                \o (IF "xs" \in DOMAIN L THEN Tag(JudgeUniform(tr, L.xs.ab, L.xg.ab), 0, "ab") \o Tag(JudgeUniform(tr, L.xs.ba, L.xg.ba), 0, "ba")
+                    ELSE <<>>) IN
       /\ (j = <<>> \/ Len(TLCGet(1)) >= MaxBad \/ TLCSet(1, TLCGet(1) \o j))
       /\ (j = <<>> \/ TLCSet(3, TLCGet(3) + Len(j)))
    /\ TLCSet(2, c)
